@@ -37,7 +37,16 @@ RULE = (
     "{(1-,0),(1/2,1/2)}, i.e. 4^4 / 6^4 leaves): each group's parameters must be bit-identical to the same group drawn alone under the same "
     "answers. GRID pass (E1): apply_parameters on every hand-set in-range time-mask interval (and every ordered "
     "pair, T<=8 quick / 13 thorough) and every frequency interval (pair). EVAL pass: module in eval mode and "
-    "functional training=False. Every leaf is a distinct (limits, lengths, answers) triple by construction; a leaf "
+    "functional training=False (every layout below). LAYOUT: every applied case (draw, joint and grid passes) is "
+    "repeated with the same parameters on the features as a transposed dense (N,F,T)-storage view, as a strided "
+    "slice of a larger tensor (storage offset, gaps) and as float64 (thorough: all three per case; quick: one per "
+    "case, rotating) and must equal the contiguous float32 result (bit-identical; 1e-4 for float64 under a warp); "
+    "__call__/spec_augment are fed contiguous / transposed / offset inputs in rotation; after every call the "
+    "caller's tensor (and the surrounding storage of the slice) must be unchanged. HISTORY pass: ONE module object "
+    "driven through every history of length 1..3 over 11 steps (6 calls with T in {3,5,8}, N in {2,3}, lengths given "
+    "or omitted; eval()/train(); reassigning max_time_mask, max_time_warp, num_freq_mask) that ends in a call, 2 limit "
+    "sets x 2 (thorough 4) fixed answer sets x F: the last call must be bit-identical to a FRESH module with the "
+    "current limits and mode under the same scripted answers. Every leaf is a distinct (limits, lengths, answers) triple by construction; a leaf "
     "is non-trivial when the enabled group drew a non-empty mask or a non-zero shift. states = distinct drawn "
     "parameter tuples (with their lengths), transitions = draws, traces = draws also applied and checked (and "
     "compared with SpecAugment.__call__ / functional.spec_augment under the same answers; quick: every warp/joint leaf and a quarter of the mask leaves)."
@@ -58,6 +67,10 @@ ASSUMPTIONS = [
     "index): bilinear border-clamped sampling of a ramp returns the position read",
     "monotone/half-frame clause checked for order 1 on the time axis only (as stated); 'destination within 1e-3 "
     "frame of a pinned end knot' is computed from the drawn (centre, shift) and only classifies violations (F12)",
+    "layouts: float64 is compared on apply_parameters with the float32 draw's parameters only (the draw uses the "
+    "dtype's epsilon, so a float64 __call__ is a different draw); expanded (stride-0) inputs are not fed",
+    "histories: length <= 3 on one object, fixed (not enumerated) answers per call; only the last call of a history is "
+    "compared (shorter histories are enumerated themselves); attributes are reassigned as plain Python attributes",
     "TorchScript-compiled and CUDA variants not explored",
 ]
 BUDGET_S = {"quick": 230, "thorough": 2400}
@@ -140,6 +153,8 @@ def _leaves(unit, tier):
         return (K * K * (K1 * K1 if cfg["num_freq_mask"] > 1 else 1)) if _enabled(cfg)["fm"] else 1
     if p == "joint":
         return len(JOINT_PAIRS[tier]) ** 4
+    if p == "hist":
+        return 1000
     if p == "grid":
         L = unit["T"]
         s = (L + 1) * (L + 2) // 2
@@ -196,6 +211,15 @@ def all_units(tier):
                     units.append({"pass": "grid", "axis": "t", "M": M, "T": T, "F": F, "lens": lens, "cfg": dict(OFF)})
                 units.append({"pass": "grid", "axis": "f", "M": 2, "T": T, "F": F, "lens": lens, "cfg": dict(OFF)})
             units.append({"pass": "eval", "T": T, "F": F, "lens": None, "cfg": dict(JOINT_CFGS[1])})
+    # histories on one module object
+    for ci, cfg in enumerate(HIST_CFGS):
+        for fi, F in enumerate(FS):
+            for aset in (range(4) if thorough else range(2)):
+                if not thorough and (ci + aset) % 3 != fi:
+                    continue  # quick: one F per (limit set, answer set)
+                for first in range(len(_hist_steps(cfg))):
+                    units.append({"pass": "hist", "T": 1, "F": F, "lens": None, "cfg": dict(cfg), "ci": ci,
+                                  "aset": aset, "first": first})
     return units
 
 
@@ -231,16 +255,92 @@ class Env:
         self.vlo = [min(min(r) for r in self.inp[n][:L]) for n, L in enumerate(self.lens_eff)]
         self.vhi = [max(max(r) for r in self.inp[n][:L]) for n, L in enumerate(self.lens_eff)]
         self.ramp = torch.arange(T, dtype=torch.float32).view(1, T, 1).expand(self.N, T, F).contiguous()
+        self.keep = self.feats.clone()
+        self._variants = None
         self.cfg = dict(unit["cfg"])
         self.module = PM.SpecAugment(**self.cfg)
         self.module.train()
         self.en = _enabled(self.cfg)
+
+    def variants(self):
+        """The same features in other memory layouts / precision: (name, tensor handed to the library,
+        caller-side storage, pristine copy of that storage)."""
+        if self._variants is None:
+            self._variants = _layout_variants(self.feats)
+        return self._variants
 
     def functional_args(self):
         c = self.cfg
         return (c["max_time_warp"], c["max_freq_warp"], c["max_time_mask"], c["max_freq_mask"],
                 c["max_time_mask_proportion"], c["num_time_mask"], c["num_time_mask_proportion"],
                 c["num_freq_mask"])
+
+
+LAYOUTS = ("transposed", "offset", "float64")
+
+
+def _layout_variants(feats):
+    N, T, F = feats.shape
+    stored = feats.transpose(1, 2).contiguous()  # coefficient-major (N, F, T) storage
+    big = torch.full((N + 1, T + 2, F + 1), 7.0, dtype=feats.dtype)
+    big[1:, 1:T + 1, :F] = feats
+    dbl = feats.double()
+    return {
+        "transposed": (stored.transpose(1, 2), stored, stored.clone()),  # dense, non-contiguous view
+        "offset": (big[1:, 1:T + 1, :F], big, big.clone()),  # strided slice with storage offset and gaps
+        "float64": (dbl, dbl, dbl.clone()),
+    }
+
+
+def _same(a, b, exact):
+    """a vs reference b (b float32 contiguous); NaNs must coincide."""
+    if tuple(a.shape) != tuple(b.shape):
+        return False
+    a, b = a.double(), b.double()
+    if not torch.equal(a.isnan(), b.isnan()):
+        return False
+    a, b = a.nan_to_num(0.0), b.nan_to_num(0.0)
+    return torch.equal(a, b) if exact else bool(((a - b).abs() <= 1e-4 * (1 + b.abs())).all())
+
+
+def _check_layouts(ctx, env, case, warped, which, fn, ref, api, extra=None):
+    """Run `fn(feature tensor)` on the named layout variants; the result must equal `ref` (computed on the
+    contiguous float32 tensor) and the caller's storage must be left unchanged."""
+    for name in which:
+        view, storage, pristine = env.variants()[name]
+        sig = dict({"api": api, "layout": name, "warped": warped}, **(extra or {}))
+        try:
+            out = fn(view)
+        except HarnessError:
+            raise
+        except Exception as e:
+            ctx.violation(dict(sig, symptom="raises", type=type(e).__name__), dict(case, layout=name),
+                          {"error": str(e)[-400:]})
+            continue
+        if not isinstance(out, torch.Tensor) or out.dtype != view.dtype or not _same(
+                out, ref, exact=not (warped and name == "float64")):
+            ctx.violation(dict(sig, symptom="result-depends-on-memory-layout"), dict(case, layout=name),
+                          {"layout_strides": list(view.stride()), "dtype": str(view.dtype),
+                           "contiguous_float32_result": ref.tolist(),
+                           "this_layout_result": out.tolist() if isinstance(out, torch.Tensor) else repr(out)})
+        else:
+            ctx.count("layout_" + name + "_equal")
+        if not torch.equal(storage, pristine):
+            ctx.violation(dict(sig, symptom="caller-input-modified"), dict(case, layout=name),
+                          {"before": pristine.tolist(), "after": storage.tolist()})
+            storage.copy_(pristine)
+
+
+def _check_input_kept(ctx, env, case, api):
+    if not torch.equal(env.feats, env.keep):
+        ctx.violation({"api": api, "layout": "contiguous", "symptom": "caller-input-modified"}, case,
+                      {"before": env.keep.tolist(), "after": env.feats.tolist()})
+        env.feats.copy_(env.keep)
+
+
+def _which_layouts(env, salt):
+    """thorough: every layout on every case; quick: one layout per case, rotating with the case."""
+    return LAYOUTS if env.tier == "thorough" else (LAYOUTS[salt % 3],)
 
 
 def _uniform(menu, mode, menu1=None):
@@ -408,6 +508,7 @@ def _check_apply(ctx, env, params, case, out=None):
             ctx.violation({"api": API_A, "symptom": "raises", "type": type(e).__name__, "warped": warped}, case,
                           {"error": str(e)[-400:], "params": _plist(params), "lens": env.lens_eff})
             return None
+        _check_input_kept(ctx, env, case, API_A)
     if not isinstance(out, torch.Tensor) or tuple(out.shape) != tuple(env.feats.shape) or out.dtype != env.feats.dtype:
         ctx.violation({"api": API_A, "symptom": "shape-differs", "warped": warped}, case,
                       {"expected": list(env.feats.shape), "observed": list(getattr(out, "shape", []))})
@@ -437,6 +538,11 @@ def _check_apply(ctx, env, params, case, out=None):
                            "masked_frames": sorted(rows[n]), "masked_coefficients": sorted(cols[n]),
                            "valid_range": [env.vlo[n], env.vhi[n]], "params": _plist(params)})
         ctx.count("cells_zeroed", st.get("zeroed", 0))
+    # ---- the same parameters on other memory layouts / in float64 -------------------------
+    salt = sum(case.get("choices", ())) + case.get("k", 0)
+    _check_layouts(ctx, env, case, warped, _which_layouts(env, salt),
+                   lambda x: mod.apply_parameters(x, params, env.lengths), out, API_A,
+                   {"time_warp": warped_t})
     # ---- positions read by the time warp (ramp probe, masks stripped) ---------------------
     if warped_t:
         e = torch.empty(0)
@@ -471,7 +577,7 @@ def _state(ctx, env, params):
     ctx.state(int.from_bytes(h.digest(), "big"))
 
 
-PASS_ID = {"tw": 1, "fw": 2, "tm": 3, "fm": 4, "joint": 5, "grid": 6, "eval": 7}
+PASS_ID = {"hist": 9, "tw": 1, "fw": 2, "tm": 3, "fm": 4, "joint": 5, "grid": 6, "eval": 7}
 
 
 def _outcome(ctx, *parts):
@@ -498,6 +604,7 @@ def _run_draw_leaf(ctx, env, chooser, mk_uniform, case_base, full=True):
             err = e
     case = dict(case_base, choices=chooser.choices)
     ctx.transitions += 1
+    _check_input_kept(ctx, env, case, API_D)
     if err is not None:
         ctx.case(1, 0)
         ctx.violation({"api": API_D, "symptom": "raises", "type": type(err).__name__,
@@ -515,13 +622,16 @@ def _run_draw_leaf(ctx, env, chooser, mk_uniform, case_base, full=True):
     if full or sum(chooser.choices) % 4 == 0:
         # the public entry points under the same answers must give the same tensor
         ch2 = Chooser(prefix=chooser.choices)
+        # float32 layouts only: the draw itself uses the dtype's epsilon, so a float64 call is another draw
+        lay = ("contiguous", "transposed", "offset")[(sum(chooser.choices) // 3) % 3]
+        x_in = env.feats if lay == "contiguous" else env.variants()[lay][0]
         with ScriptedRandom(ch2, uniform=mk_uniform()):
             try:
                 if (sum(chooser.choices) + len(chooser.choices) // 2) % 2:
-                    out2 = mod(env.feats, env.lengths)
+                    out2 = mod(x_in, env.lengths)
                     api = "SpecAugment.__call__"
                 else:
-                    out2 = PF.spec_augment(env.feats, *env.functional_args(), env.cfg["interpolation_order"],
+                    out2 = PF.spec_augment(x_in, *env.functional_args(), env.cfg["interpolation_order"],
                                            env.lengths, True)
                     api = "functional.spec_augment"
                 err = None
@@ -529,13 +639,19 @@ def _run_draw_leaf(ctx, env, chooser, mk_uniform, case_base, full=True):
                 raise
             except Exception as e:
                 err = e
+        _check_input_kept(ctx, env, case, api)
+        if lay != "contiguous":
+            _, storage, pristine = env.variants()[lay]
+            if not torch.equal(storage, pristine):
+                ctx.violation({"api": api, "layout": lay, "symptom": "caller-input-modified"}, case, {})
+                storage.copy_(pristine)
         if err is not None:
-            ctx.violation({"api": api, "symptom": "raises", "type": type(err).__name__}, case,
+            ctx.violation({"api": api, "symptom": "raises", "type": type(err).__name__, "layout": lay}, case,
                           {"error": str(err)[-400:]})
         elif tuple(out2.shape) != tuple(out.shape) or not torch.equal(out2.isnan(), out.isnan()) or not torch.equal(
                 out2.nan_to_num(0.0), out.nan_to_num(0.0)):
-            ctx.violation({"api": api, "symptom": "differs-from-draw-then-apply"}, case,
-                          {"call": out2.tolist(), "draw_then_apply": out.tolist()})
+            ctx.violation({"api": api, "symptom": "differs-from-draw-then-apply", "layout": lay}, case,
+                          {"call": out2.tolist(), "draw_then_apply": out.tolist(), "layout": lay})
         else:
             ctx.count("call_equals_draw_then_apply")
     rows, cols = _mask_sets(env, params)
@@ -694,38 +810,175 @@ def _run_eval_unit(ctx, env, ui, only=None):
     base = {"unit": env.unit, "tier": env.tier, "seed": env.seed, "ui": ui}
     T = env.T
     variants = [None] + [[L, max(1, T - L + 1)] for L in sorted({1, (T + 1) // 2, T})]
+    inputs = [("contiguous", env.feats, env.feats, env.keep)] + [(k,) + v for k, v in env.variants().items()]
     for vi, lens in enumerate(variants):
         if only is not None and vi != only:
             continue
         case = dict(base, k=vi)
         lengths = None if lens is None else torch.tensor(lens)
-        feats = env.feats.clone()
-        keep = feats.clone()
         mod = PM.SpecAugment(**env.cfg)
         mod.eval()
         ch = Chooser()
-        for api in ("SpecAugment.__call__", "functional.spec_augment"):
-            ctx.case(1, 1)
-            with ScriptedRandom(ch, uniform=_uniform(MENU_QUICK, "call")) as sr:
-                try:
-                    if api == "SpecAugment.__call__":
-                        out = mod(feats, lengths)
-                    else:
-                        out = PF.spec_augment(feats, *env.functional_args(), env.cfg["interpolation_order"],
-                                              lengths, False)
-                except Exception as e:
-                    ctx.violation({"api": api, "symptom": "raises", "type": type(e).__name__, "mode": "eval"}, case,
-                                  {"error": str(e)[-400:]})
-                    continue
-            if tuple(out.shape) != tuple(keep.shape) or not torch.equal(out, keep) or not torch.equal(feats, keep):
-                ctx.violation({"api": api, "symptom": "eval-mode-changes-input"}, case,
-                              {"input": keep.tolist(), "output": out.tolist()})
+        for lay, feats, storage, keep in inputs:
+            for api in ("SpecAugment.__call__", "functional.spec_augment"):
+                ctx.case(1, 1)
+                with ScriptedRandom(ch, uniform=_uniform(MENU_QUICK, "call")) as sr:
+                    try:
+                        if api == "SpecAugment.__call__":
+                            out = mod(feats, lengths)
+                        else:
+                            out = PF.spec_augment(feats, *env.functional_args(), env.cfg["interpolation_order"],
+                                                  lengths, False)
+                    except Exception as e:
+                        ctx.violation({"api": api, "symptom": "raises", "type": type(e).__name__, "mode": "eval",
+                                       "layout": lay}, case, {"error": str(e)[-400:]})
+                        continue
+                if (tuple(out.shape) != tuple(feats.shape) or out.dtype != feats.dtype
+                        or not torch.equal(out, env.keep.to(out.dtype)) or not torch.equal(storage, keep)):
+                    ctx.violation({"api": api, "symptom": "eval-mode-changes-input", "layout": lay}, case,
+                                  {"input": env.keep.tolist(), "output": out.tolist()})
+                    storage.copy_(keep)
+                else:
+                    _outcome(ctx, 7, int(out is feats), len(sr.calls))
+                    ctx.count("eval_returns_same_object" if out is feats else "eval_returns_equal_copy")
+
+
+# ----------------------------------------------------------------------------- histories on one module
+HIST_CFGS = (
+    dict(max_time_warp=3, max_freq_warp=0, max_time_mask=2, max_time_mask_proportion=1, num_time_mask=2,
+         num_time_mask_proportion=1, max_freq_mask=1, num_freq_mask=1, interpolation_order=1),
+    dict(max_time_warp=0, max_freq_warp=1, max_time_mask=100, max_time_mask_proportion=0.5, num_time_mask=3,
+         num_time_mask_proportion=1, max_freq_mask=2, num_freq_mask=2, interpolation_order=2),
+)
+HIST_CALLS = (  # (T, N, lengths or None = omitted)
+    (5, 2, None), (8, 2, None), (3, 2, None), (8, 3, None), (8, 2, [5, 8]), (5, 2, [2, 5]),
+)
+
+
+def _hist_steps(cfg):
+    steps = [("call",) + c for c in HIST_CALLS] + [("mode", False), ("mode", True)]
+    steps += [("set", "max_time_mask", 1), ("set", "max_time_warp", 0.0 if cfg["max_time_warp"] else 1.0),
+              ("set", "num_freq_mask", 0)]
+    return steps
+
+
+def _hist_feats(cache, seed, T, N, F, lens):
+    key = (T, N, F, tuple(lens) if lens else None)
+    if key not in cache:
+        rng = random.Random(f"c08h-{seed}-{key}")
+        eff = lens or [T] * N
+        vals = [[[SENTINEL if t >= L else 1.0 + 0.5 * rng.random() for _ in range(F)] for t in range(T)] for L in eff]
+        x = torch.tensor(vals, dtype=torch.float32)
+        cache[key] = (x, x.clone(), None if lens is None else torch.tensor(lens, dtype=torch.long))
+    return cache[key]
+
+
+def _hist_uniform(salt):
+    """Fixed answers: call c of one invocation, element (n, j) -> menu[(salt + c + n + j) % 4]."""
+    st = {"c": 0}
+
+    def uniform(shape, dtype, device, label, ch):
+        N = shape[0] if shape else 1
+        M = 1
+        for d in shape[1:]:
+            M *= d
+        c = st["c"]
+        st["c"] += 1
+        vals = [[MENU_QUICK[(salt + c + n + j) % 4] for j in range(M)] for n in range(N)]
+        return torch.tensor(vals, dtype=torch.float64).to(dtype).view(shape)
+
+    return uniform
+
+
+def _hist_histories(steps, first):
+    """Histories of length 1..3 that start with step `first` and end with a call."""
+    ncall = len(HIST_CALLS)
+    out = [[first]] if first < ncall else []
+    for b in range(len(steps)):
+        if b < ncall:
+            out.append([first, b])
+        for c in range(ncall):
+            out.append([first, b, c])
+    return out
+
+
+def _run_hist_unit(ctx, env, ui, only=None):
+    """One SpecAugment object driven through a history of calls with different T / N / lengths given or
+    omitted, train/eval switches and attribute reassignments; the LAST call must give exactly what a
+    fresh module (current limits, current mode) gives under the same scripted answers."""
+    unit = env.unit
+    cfg0, F, aset = unit["cfg"], unit["F"], unit["aset"]
+    steps = _hist_steps(cfg0)
+    base = {"unit": unit, "tier": env.tier, "seed": env.seed, "ui": ui}
+    cache = {}
+    hists = [list(only)] if only is not None else _hist_histories(steps, unit["first"])
+    for hist in hists:
+        case = dict(base, k=hist)
+        mod = PM.SpecAugment(**cfg0)
+        mod.train()
+        cfg, mode = dict(cfg0), True
+        out = err = last = None
+        for si, h in enumerate(hist):
+            st = steps[h]
+            ctx.transitions += 1
+            if st[0] == "mode":
+                mode = st[1]
+                mod.train(mode)
+            elif st[0] == "set":
+                cfg[st[1]] = st[2]
+                setattr(mod, st[1], st[2])
             else:
-                _outcome(ctx, 7, int(out is feats), len(sr.calls))
-                ctx.count("eval_returns_same_object" if out is feats else "eval_returns_equal_copy")
+                _, T, N, lens = st
+                x, keep, lengths = _hist_feats(cache, env.seed, T, N, F, lens)
+                with ScriptedRandom(Chooser(), uniform=_hist_uniform(aset + si)):
+                    try:
+                        out, err = mod(x, lengths), None
+                    except HarnessError:
+                        raise
+                    except Exception as e:
+                        out, err = None, e
+                if not torch.equal(x, keep):
+                    ctx.violation({"api": "SpecAugment.__call__", "layout": "contiguous",
+                                   "symptom": "caller-input-modified", "history": True}, case, {"step": si})
+                    x.copy_(keep)
+                last = (si, T, N, lens, x, lengths)
+        ctx.case(1, 1 if len(hist) > 1 else 0)
+        ctx.state([unit["ci"], mode, sorted((k, v) for k, v in cfg.items() if cfg0[k] != v), [s_ for s_ in last[1:4]]])
+        si, T, N, lens, x, lengths = last
+        fresh = PM.SpecAugment(**cfg)
+        fresh.train(mode)
+        with ScriptedRandom(Chooser(), uniform=_hist_uniform(aset + si)):
+            try:
+                exp, eerr = fresh(x, lengths), None
+            except HarnessError:
+                raise
+            except Exception as e:
+                exp, eerr = None, e
+        shape_changed = any(steps[h][0] == "call" and steps[h][1:3] != (T, N) for h in hist[:-1])
+        sig = {"api": "SpecAugment.__call__", "history": True, "history_len": len(hist), "training": mode,
+               "lengths_given": lens is not None, "shape_changed": shape_changed}
+        detail = {"history": [list(steps[h]) for h in hist], "limits_now": cfg}
+        if eerr is not None:
+            ctx.violation(dict(sig, symptom="raises", type=type(eerr).__name__, fresh_module=True), case,
+                          dict(detail, error=str(eerr)[-300:]))
+        elif err is not None:
+            ctx.violation(dict(sig, symptom="raises", type=type(err).__name__, fresh_module=False), case,
+                          dict(detail, error=str(err)[-300:]))
+        elif not _same(out, exp, exact=True):
+            ctx.violation(dict(sig, symptom="differs-from-fresh-module"), case,
+                          dict(detail, reused_module=out.tolist(), fresh_module=exp.tolist()))
+        else:
+            ctx.traces += 1
+            ctx.count("history_equals_fresh_module")
+            if not mode and out is not x and not torch.equal(out, x):
+                ctx.violation(dict(sig, symptom="eval-mode-changes-input"), case, detail)
+            _outcome(ctx, 9, int(mode), T, N, [round(v * 64) for v in out[:, :, 0].flatten().tolist()])
+            if len(hist) == 3 and only is None and hist[1] == 1 and hist[2] == 0:
+                ctx.sample({"pass": "hist", "history": detail["history"], "limits_now": cfg, "F": F,
+                            "last_call_output": out.tolist()})
 
 
-RUNNERS = {"tw": _run_group_unit, "fw": _run_group_unit, "tm": _run_group_unit, "fm": _run_group_unit,
+RUNNERS = {"hist": _run_hist_unit, "tw": _run_group_unit, "fw": _run_group_unit, "tm": _run_group_unit, "fm": _run_group_unit,
            "joint": _run_joint_unit, "grid": _run_grid_unit, "eval": _run_eval_unit}
 
 
@@ -751,7 +1004,9 @@ def replay(case):
 
 def finalize(total, tier, seed):
     c = total.counters
-    for name in ("cells_zeroed", "warps_dst_interior", "group_alone_equals_joint", "call_equals_draw_then_apply"):
+    for name in ("cells_zeroed", "warps_dst_interior", "group_alone_equals_joint", "call_equals_draw_then_apply",
+                 "layout_transposed_equal", "layout_offset_equal", "layout_float64_equal",
+                 "history_equals_fresh_module"):
         if not c.get(name):
             total.notes.append(f"vacuity warning: counter {name} is zero")
     total.notes.append(
